@@ -737,3 +737,207 @@ mutate "(h) Dequeue forgets to wrap start" $CB \
 '	if queue.start >= queue.maxSize {
 		queue.start = 0
 	}' ''
+
+# ---------------------------------------------------------------- the binary heap itself (BinaryHeapGen, general loops + comparator calls)
+BH=trees/binaryheap/binaryheap.go
+mutate "(q1) bubbleDownIndex swaps when the comparator says >= 0" $BH \
+'		if heap.Comparator(indexValue, smallerValue) > 0 {' '		if heap.Comparator(indexValue, smallerValue) >= 0 {'
+
+mutate "(q2) bubbleDownIndex: wrong right child index" $BH \
+'		rightIndex := index<<1 + 2' '		rightIndex := index<<1 + 3'
+
+mutate "(q3) Pop forgets bubbleDown" $BH \
+'	heap.list.Remove(lastIndex)
+	heap.bubbleDown()' '	heap.list.Remove(lastIndex)'
+
+mutate "(q4) bubbleUp: parent index (index-1)>>2" $BH \
+'index > 0; parentIndex = (index - 1) >> 1 {' 'index > 0; parentIndex = (index - 1) >> 2 {'
+
+mutate "(q5) bubbleUp stops on < 0 instead of <= 0 (equal elements keep moving up)" $BH \
+'		if heap.Comparator(parentValue, indexValue) <= 0 {' '		if heap.Comparator(parentValue, indexValue) < 0 {'
+
+mutate "(q6) Push heapifies from size/2 - 1 for large batches only" $BH \
+'		size := heap.list.Size()/2 + 1' '		size := heap.list.Size()/2 + 1
+		if len(values) > 1024 {
+			size = heap.list.Size()/2 - 1
+		}'
+
+mutate "(q7) bubbleDownIndex compares the children the other way round" $BH \
+'		if rightIndex < size && heap.Comparator(leftValue, rightValue) > 0 {' '		if rightIndex < size && heap.Comparator(rightValue, leftValue) > 0 {'
+
+mutate "(q8) the comparator result is compared with 1 (refused: only the sign is modelled)" $BH \
+'		if heap.Comparator(indexValue, smallerValue) > 0 {' '		if heap.Comparator(indexValue, smallerValue) == 1 {'
+
+mutate "(q9) Peek returns the last element" $BH \
+'	return heap.list.Get(0)' '	return heap.list.Get(heap.list.Size() - 1)'
+
+mutate "(q10) harmless: bubbleDownIndex with renamed locals and the swap test negated" $BH \
+'		indexValue, _ := heap.list.Get(index)
+		smallerValue, _ := heap.list.Get(smallerIndex)
+		if heap.Comparator(indexValue, smallerValue) > 0 {
+			heap.list.Swap(index, smallerIndex)
+		} else {
+			break
+		}' '		child, _ := heap.list.Get(smallerIndex)
+		cur, _ := heap.list.Get(index)
+		if heap.Comparator(cur, child) <= 0 {
+			break
+		}
+		heap.list.Swap(index, smallerIndex)'
+
+mutate "(q11) harmless: Pop reads the size before Get and uses a local for the list" $BH \
+'	value, ok = heap.list.Get(0)
+	if !ok {
+		return
+	}
+	lastIndex := heap.list.Size() - 1' '	lastIndex := heap.list.Size() - 1
+	value, ok = heap.list.Get(0)
+	if !ok {
+		return
+	}'
+
+mutate "(q12) a continue in bubbleUp is refused" $BH \
+'		heap.list.Swap(index, parentIndex)
+		index = parentIndex' '		heap.list.Swap(index, parentIndex)
+		index = parentIndex
+		continue'
+
+# ---------------------------------------------------------------- the linked-list iterators in pointer mode (heapiter.go)
+SI=lists/singlylinkedlist/iterator.go
+DI=lists/doublylinkedlist/iterator.go
+mutate "(i1) SinglyLinkedList iterator Next: off by one (first element at index 1)" $SI \
+'	if iterator.index == 0 {
+		iterator.element = iterator.list.first' '	if iterator.index == 1 {
+		iterator.element = iterator.list.first'
+
+mutate "(i2) SinglyLinkedList iterator Next keeps the stale element when leaving the range" $SI \
+'	if !iterator.list.withinRange(iterator.index) {
+		iterator.element = nil
+		return false
+	}
+	if iterator.index == 0 {' '	if !iterator.list.withinRange(iterator.index) {
+		return false
+	}
+	if iterator.index == 0 {'
+
+mutate "(i3) DoublyLinkedList iterator Prev follows next instead of prev" $DI \
+'		iterator.element = iterator.element.prev' '		iterator.element = iterator.element.next'
+
+mutate "(i4) DoublyLinkedList iterator End forgets the element pointer" $DI \
+'	iterator.index = iterator.list.size
+	iterator.element = iterator.list.last' '	iterator.index = iterator.list.size
+	iterator.element = nil'
+
+mutate "(i5) DoublyLinkedList iterator Prev restarts from last at index size-2" $DI \
+'	if iterator.index == iterator.list.size-1 {' '	if iterator.index == iterator.list.size-2 {'
+
+mutate "(i6) SinglyLinkedList iterator NextTo returns true at the end" $SI \
+'			return true
+		}
+	}
+	return false
+}' '			return true
+		}
+	}
+	return true
+}'
+
+mutate "(i7) DoublyLinkedList iterator Begin leaves the index" $DI \
+'	iterator.index = -1
+	iterator.element = nil' '	iterator.element = nil'
+
+mutate "(i8) harmless: SinglyLinkedList iterator Next with the branches swapped and a renamed receiver-free local" $SI \
+'	if iterator.index == 0 {
+		iterator.element = iterator.list.first
+	} else {
+		iterator.element = iterator.element.next
+	}' '	if iterator.index != 0 {
+		iterator.element = iterator.element.next
+	} else {
+		iterator.element = iterator.list.first
+	}'
+
+mutate "(i9) harmless: DoublyLinkedList iterator Prev returns true directly" $DI \
+'	return iterator.list.withinRange(iterator.index)
+}
+
+// Value' '	return true
+}
+
+// Value'
+
+mutate "(i10) an iterator that writes through the list is refused" $SI \
+'	iterator.index = -1
+	iterator.element = nil' '	iterator.index = -1
+	iterator.list.size = 0
+	iterator.element = nil'
+
+# ---------------------------------------------------------------- heap iterator, linked-list-backed index iterators, priority queue iterator,
+# containers.GetSortedValues, the wrappers' constructors
+HI=trees/binaryheap/iterator.go
+mutate "(v1) heap iterator Value() pops one time too few (index-start-1)" $HI \
+'	for n := 0; n < iterator.index-start; n++ {' '	for n := 1; n < iterator.index-start; n++ {'
+
+mutate "(v2) heap iterator evaluateRange: end = start + 1<<bits + 1" $HI \
+'	end = start + 1<<bits' '	end = start + 1<<bits + 1'
+
+mutate "(v3) heap iterator numOfBits counts from 1" $HI \
+'	var count uint
+	for n != 0 {' '	var count uint = 1
+	for n != 0 {'
+
+mutate "(v4) heap iterator Value() builds the temporary heap with the default comparator" $HI \
+'	tmpHeap := NewWith(iterator.heap.Comparator)' '	tmpHeap := NewWith(cmp.Compare[T])'
+
+mutate "(v5) heap iterator Value() clips the level at Size()-1" $HI \
+'	if end > iterator.heap.Size() {
+		end = iterator.heap.Size()
+	}' '	if end > iterator.heap.Size()-1 {
+		end = iterator.heap.Size() - 1
+	}'
+
+mutate "(v6) heap iterator Next without the size guard" $HI \
+'	if iterator.index < iterator.heap.Size() {
+		iterator.index++
+	}' '	iterator.index++'
+
+mutate "(v7) harmless: heap iterator Value() with the loops counting the same way but renamed variables" $HI \
+'	for n := start; n < end; n++ {
+		value, _ := iterator.heap.list.Get(n)
+		tmpHeap.Push(value)
+	}' '	for k := start; k < end; k++ {
+		v, _ := iterator.heap.list.Get(k)
+		tmpHeap.Push(v)
+	}'
+
+mutate "(v8) LinkedListStack iterator Value reads index+1" stacks/linkedliststack/iterator.go \
+'	value, _ := iterator.stack.list.Get(iterator.index) // in reverse (LIFO)' '	value, _ := iterator.stack.list.Get(iterator.index + 1) // in reverse (LIFO)'
+
+mutate "(v9) LinkedListQueue iterator Begin sets index 0" queues/linkedlistqueue/iterator.go \
+'	iterator.index = -1
+}' '	iterator.index = 0
+}'
+
+mutate "(v10) PriorityQueue iterator Prev delegates to Next" queues/priorityqueue/iterator.go \
+'	return iterator.iterator.Prev()' '	return iterator.iterator.Next()'
+
+mutate "(v11) GetSortedValues sorts only slices longer than 2" containers/containers.go \
+'	values := container.Values()
+	if len(values) < 2 {
+		return values
+	}
+	slices.Sort(values)' '	values := container.Values()
+	if len(values) < 3 {
+		return values
+	}
+	slices.Sort(values)'
+
+mutate "(v12) GetSortedValuesFunc ignores the comparator" containers/containers.go \
+'	slices.SortFunc(values, comparator)' '	slices.SortFunc(values, func(a, b T) int { return 0 })'
+
+mutate "(v13) priorityqueue.New installs no comparator on the queue" queues/priorityqueue/priorityqueue.go \
+'	return &Queue[T]{heap: binaryheap.NewWith(comparator), Comparator: comparator}' '	return &Queue[T]{heap: binaryheap.NewWith(comparator)}'
+
+mutate "(v14) arraystack.New pre-fills the list" stacks/arraystack/arraystack.go \
+'	return &Stack[T]{list: arraylist.New[T]()}' '	var zero T
+	return &Stack[T]{list: arraylist.New[T](zero)}'
